@@ -5,7 +5,8 @@ independent record parser and compared with os.stat / basename / hashlib.sha1; t
 independent builder are parsed by the library. Patch lists rendered by the library are parsed by
 an independent parser of the wire text, and parsed back by the library."""
 import hashlib, os
-from ..core import digest
+from .. import text
+from ..core import digest, REPO
 from ..fmt import fiin
 
 LEVEL = "exploration"
@@ -60,6 +61,16 @@ def shard(ctx):
         big = []
     for n in [n for i, n in enumerate(big) if i % ctx.nshards == ctx.index]:
         fiin_parse_case(ctx, rng, n)
+    if ctx.index == 2 % ctx.nshards and not P.get("small"):
+        # file lengths at and around the integer constants of the hashing / table code of the tree under test (a piece size, a
+        # buffer size ...) and twice that: a remainder that is taken modulo such a constant is zero only there
+        consts = [c for c in text.tree_literals(REPO, ["fiin.rs", "sha1.rs"])[0] if 257 <= c <= (8 << 20)]
+        lens = []
+        for c in consts[:12]:
+            lens += [c - 1, c, c + 1, 2 * c]
+        for i in range(0, len(lens), 8):
+            fiin_case(ctx, rng, lens[i:i + 8], 64 << 20)
+        ctx.stats.classes["fiin-length:constant-of-the-tree"] += len(lens)
     if ctx.index == 1 % ctx.nshards and not P.get("small"):
         fiin_case(ctx, rng, [rng.choice([0, 1, 55, 64, 100]) for _ in range(rng.choice([257, 300]))], P["maxfile"])
     for i in range(P["nlists"]):
@@ -73,6 +84,10 @@ def fiin_case(ctx, rng, lens, maxfile):
         for _ in range(k):
             base = rng.choice([0, 0, 64, 128, 4096, 1 << 16, rng.randrange(0, maxfile, 64)])
             lens.append(min(maxfile, base + rng.choice([55, 56, 63, 64, 119, 120, 0, 1, rng.randrange(64)])))
+        if k >= 2 and rng.random() < 0.3:
+            # descending tails: each file leaves fewer bytes in its last block than the one before it, down to an empty file
+            lens = sorted(lens, key=lambda n: -(n % 64))
+            lens[-1] = rng.choice([0, 0, lens[-1] // 64 * 64])
     used = set()
     d = ctx.path("fset")
     os.makedirs(d, exist_ok=True)
@@ -189,6 +204,18 @@ def plist_case(ctx, rng):
             hashes=[rng.choice(["%040x", "%040X", "%040x"]) % rng.getrandbits(160) if rng.random() < 0.9 else "".join(rng.choice("0123456789abcdefABCDEF") for _ in range(40)) for _ in range(rng.randint(1, 5))],
             ua=rng.choice([0, 7, -1, 2 ** 31 - 1]), ub=rng.choice([0, 8, -2 ** 31]),
         ))
+    # string fields whose value is a word the format itself uses (literals of the tree under test that contain no separator):
+    # a parser that looks for a keyword by value instead of by position is only confused by a field that equals it
+    words = [w for w in text.tree_literals(REPO, ["patchlist.rs", "patch.rs", "fiin.rs"])[1] if w and not any(c in w for c in "\t\r\n ,;") and len(w) <= 24] + ["sha1", "0", "-1"]
+    keyword = False
+    if ents and rng.random() < 0.2:
+        e = rng.choice(ents)
+        w = rng.choice(words)
+        for k in rng.sample(["version", "version", "url", "pid"], 1):
+            if k == "pid":
+                continue
+            e[k] = w if k == "version" or rng.random() < 0.5 else e[k] + w
+        keyword = True
     # a list may name the same patch more than once, or rows that differ in a single field
     if ents and rng.random() < 0.25:
         for _ in range(rng.choice([1, 1, 3])):
@@ -212,7 +239,7 @@ def plist_case(ctx, rng):
     sf = ctx.write("pl.spec", spec.encode())
     out = ctx.path("pl.wire")
     total = sum(e["length"] for e in ents)
-    ctx.case(digest(kind, repr(ents)), n >= 1, ["plist-" + kind, "plist-n:%s" % bucket(n), "plist-total:%s" % ("big" if total >= 2 ** 32 else "small")] + (["plist-repeated-rows"] if dupes else []),
+    ctx.case(digest(kind, repr(ents)), n >= 1, ["plist-" + kind, "plist-n:%s" % bucket(n), "plist-total:%s" % ("big" if total >= 2 ** 32 else "small")] + (["plist-repeated-rows"] if dupes else []) + (["plist-field-equals-keyword"] if keyword else []),
              sample=dict(kind=kind, entries=n, total=total, first=ents[0] if ents else None))
     rec = ctx.call("plist.to_string", kind, sf, out, input_bytes=len(spec))
     ctx.check_mon(rec, len(spec), files=[sf])
